@@ -63,6 +63,15 @@ Theorem C18_nested_hierarchical_refuted :
 Proof. exact nested_hierarchical_refuted. Qed.
 Print Assumptions C18_nested_hierarchical_refuted.
 
+(* KNOWN FINDING C18-nested-from-leave: a request made from a LEAVE handler - allowed, the machine is still in the state it is leaving -
+   is performed inside the outer transition, which then goes on: the state fires leave twice and two states end up active (flat machine
+   A, B, C; ab: A->B, ac: A->C; A's leave handler requests ac once; request ab) *)
+Theorem C18_nested_from_leave_refuted :
+  let '(st, raised) := perform leave_machine leave_handlers leave_once 8 (start_state leave_machine 0) "ab"%string in
+  raised = false /\ cur st = 1 /\ active st = [false; true; true] /\ count (Leave 0) (log st) = 2.
+Proof. exact nested_from_leave_refuted. Qed.
+Print Assumptions C18_nested_from_leave_refuted.
+
 (* KNOWN FINDING C18-concurrent: nothing makes check-then-act atomic; two threads can both be allowed from
    the same state, the state fires its leave event twice and two states end up active *)
 Theorem C18_concurrent_refuted :
